@@ -1,12 +1,16 @@
 import GeomV.C20.ParseAgree
-import GeomV.C08.ProjPipeline
+import GeomV.C20.Fold
+import GeomV.C20.CodeFree
 /-!
 # C20_transform_agree: equal views give the same pipeline (C08's model of `NewTransform`'s closure)
 
 `pipeSR` builds C08's `SR` record — everything the eight projection constructors, `datumTransform`
 and the closure of `NewTransform` read — from a C20 `View` (exact rationals embedded by `ι`, NaN for
-unset fields) and the one field a `View` does not carry, `codeWGS84` (`DatumCode == "WGS84"`, which
-decides whether the closure goes through WGS84 in two hops).
+unset fields) and the one field a `View` does not carry, the datum code (DATA; `checkNotWGS` tests
+`strings.EqualFold(DatumCode, "WGS84")` since fix b165df1, `DatumCode == "WGS84"` before it; the test decides whether the
+closure goes through WGS84 in two hops).  The two parsed references of one description carry DIFFERENT codes
+(`WGS84` / `wgs84`), so agreement of the pipelines needs `transform3_code` (CodeFree.lean: nothing below the route
+decision reads the code) and the equality of the two folds.
 -/
 set_option linter.unusedSimpArgs false
 set_option linter.unusedVariables false
@@ -25,28 +29,26 @@ def embedX : XR → α
   | some q => ι q
   | none => C08.RNum.nan
 
-def pipeSR (v : View XR) (codeWGS84 : Bool) : C08.SR α :=
+def pipeSR (v : View XR) (code : Str) : C08.SR α :=
   let p (i : Nat) : α := embedX ι ((v.datumParams[i]?).getD none)
   { name := pnameOf v.proj, lat0 := embedX ι v.lat0, lat1 := embedX ι v.lat1, lat2 := embedX ι v.lat2, latTS := embedX ι v.latTS,
     long0 := embedX ι v.long0, x0 := embedX ι v.x0, y0 := embedX ι v.y0, k0 := embedX ι v.k0, k := C08.RNum.nan,
     a := embedX ι v.a, b := embedX ι v.b, rf := embedX ι v.rf, es := embedX ι v.es, e := C08.RTrans.sqrt (embedX ι v.es),
     ep2 := embedX ι v.ep2, zone := C08.RNum.nan, toMeter := embedX ι v.toMeter, fromGreenwich := embedX ι v.fromGreenwich,
-    sphere := v.sphere, ra := false, utmSouth := false, czech := false, axis := v.axis, codeWGS84 := codeWGS84,
+    sphere := v.sphere, ra := false, utmSouth := false, czech := false, axis := v.axis, datumCode := String.ofList code,
     datum := { dtype := v.datumType, a := embedX ι v.datumA, b := embedX ι v.datumB, es := embedX ι v.datumEs, ep2 := embedX ι v.datumEp2,
                np := v.datumParams.length, p0 := p 0, p1 := p 1, p2 := p 2, p3 := p 3, p4 := p 4, p5 := p 5, p6 := p 6 } }
 
 /-- **C20_transform_agree_partial** — for every well-formed description, both texts parse to references
 whose views are THE SAME value (`expected c`); hence C08's pipeline model built from either reference is
 the same function of the position, to and from any other reference, for every number type (ℝ included)
-and every embedding of the rationals.  Partial: the flag `codeWGS84` is a parameter — for a datum given
-by the NAME WGS84 the real flags differ (PROJ.4 keeps `WGS84`, WKT yields `wgs84`), so one side takes
-the two-hop route; equality of the two routes is a statement about the geocentric conversions (C08),
-measured here to 1 µm by the correspondence run. -/
+and every embedding of the rationals.  Partial: the datum code is a parameter, the same on both sides
+(`C20_transform_agree` below is about the real codes, which differ in case). -/
 theorem C20_transform_agree_partial (c : Crs) (st : Style) (hw : wellFormed c = true) (hst : styleOK st = true)
     (hn : numeralsRead c = true) :
     ∃ rp rw vp vw, parse (α := XR) (toProj4 c st) = .ok rp ∧ parse (α := XR) (toWkt c st) = .ok rw ∧
       view rp = some vp ∧ view rw = some vw ∧
-      ∀ (code : Bool) (wgs other : C08.SR α) (x y : α),
+      ∀ (code : Str) (wgs other : C08.SR α) (x y : α),
         C08.transform wgs (pipeSR ι vp code) other x y = C08.transform wgs (pipeSR ι vw code) other x y ∧
         C08.transform wgs other (pipeSR ι vp code) x y = C08.transform wgs other (pipeSR ι vw code) x y := by
   unfold styleOK at hst
@@ -56,40 +58,125 @@ theorem C20_transform_agree_partial (c : Crs) (st : Style) (hw : wellFormed c = 
   obtain ⟨r2, hp2, hv2, _⟩ := wkt_parse_agree c st hw hn hst.1 hst.2 hf
   exact ⟨r1, r2, expected c, expected c, hp1, hp2, hv1, hv2, fun _ _ _ _ _ => ⟨rfl, rfl⟩⟩
 
-/-- `DatumCode == "WGS84"`, the field of the reference that `checkNotWGS` reads -/
-def codeWGS84 (r : SR XR) : Bool := r.datumCode = s "WGS84"
+/-- what `checkNotWGS` of transform.go makes of a reference's code: `strings.EqualFold(DatumCode, "WGS84")` (after fix
+b165df1; `genCheckNotWGS` of the regenerated `RouteGen.lean` is tied to this flag by `genCheckNotWGS_eq`, ProofsWgs.lean) -/
+def codeWGS84 (r : SR XR) : Bool := equalFold r.datumCode (s "WGS84")
 
-/-- **C20_transform_agree** — for a datum that is NOT given by the name WGS84 (custom shifts, NAD83) the flag
-`codeWGS84` is false on both references as well, so C08's pipeline built from the two parsed references —
-real flags included — is literally the same function of the position, to and from any other reference. -/
+/-- the flag as the code computed it BEFORE fix b165df1: `DatumCode == "WGS84"`, case-sensitive -/
+def codeWGS84Literal (r : SR XR) : Bool := r.datumCode = s "WGS84"
+
+/-- C20's model of `EqualFold` and the one in C08's pipeline model are the same function -/
+theorem equalFold_eq_c08 (x t : Str) : equalFold x t = C08.equalFoldAscii x t := by
+  induction x generalizing t with
+  | nil => cases t <;> rfl
+  | cons a x ih =>
+    cases t with
+    | nil => rfl
+    | cons b t => simp only [equalFold, C08.equalFoldAscii, ih]; rfl
+
+theorem goEqualFold_ofList (x : Str) : C08.goEqualFold (String.ofList x) "WGS84" = equalFold x (s "WGS84") := by
+  rw [equalFold_eq_c08]
+  unfold C08.goEqualFold
+  rw [String.toList_ofList]
+  rfl
+
+theorem pipeSR_withCode (v : View XR) (c c' : Str) : pipeSR ι v c' = withCode (pipeSR ι v c) (String.ofList c') := rfl
+
+/-- the closure of `NewTransform` depends on the codes of its two references only through their folds -/
+theorem transform_code (wgs a b : C08.SR α) (ca ca' cb cb' : String)
+    (ha : C08.goEqualFold ca "WGS84" = C08.goEqualFold ca' "WGS84") (hb : C08.goEqualFold cb "WGS84" = C08.goEqualFold cb' "WGS84") :
+    C08.transform wgs (withCode a ca) (withCode b cb) = C08.transform wgs (withCode a ca') (withCode b cb') := by
+  funext x y
+  have e1 : C08.checkNotWGS (withCode a ca) (withCode b cb) = C08.checkNotWGS (withCode a ca') (withCode b cb') := by
+    unfold C08.checkNotWGS
+    show (_ && !C08.goEqualFold cb "WGS84") = (_ && !C08.goEqualFold cb' "WGS84")
+    rw [hb]; rfl
+  have e2 : C08.checkNotWGS (withCode b cb) (withCode a ca) = C08.checkNotWGS (withCode b cb') (withCode a ca') := by
+    unfold C08.checkNotWGS
+    show (_ && !C08.goEqualFold ca "WGS84") = (_ && !C08.goEqualFold ca' "WGS84")
+    rw [ha]; rfl
+  have t1 : ∀ c, C08.transform3 (withCode a c) wgs = C08.transform3 a wgs := fun c => transform3_code a wgs c wgs.datumCode
+  have t2 : ∀ c, C08.transform3 wgs (withCode b c) = C08.transform3 wgs b := fun c => transform3_code wgs b wgs.datumCode c
+  have t3 : ∀ c c', C08.transform3 (withCode a c) (withCode b c') = C08.transform3 a b := fun c c' => transform3_code a b c c'
+  unfold C08.transform
+  rw [e1, e2, t1, t1, t2, t2, t3, t3]
+
+/-- every datum name the WKT renderer writes, by flavour of the description -/
+theorem wktDatumName_cases (c : Crs) (st : Style) :
+    (c.datum = .wgs84 ∧ wktDatumName c st ∈ ["WGS_1984", "D_WGS_1984"]) ∨
+    (c.datum ≠ .wgs84 ∧ wktDatumName c st ∈ customAllNames ++ ["North_American_Datum_1983", "D_North_American_1983"]) := by
+  by_cases hd : c.datum = .wgs84
+  · left
+    refine ⟨hd, ?_⟩
+    unfold wktDatumName; rw [hd]; cases st.esri <;> simp
+  · right
+    refine ⟨hd, ?_⟩
+    unfold wktDatumName
+    cases hdd : c.datum
+    · unfold customAllNames
+      cases st.esri <;> simp only [List.mem_append, List.mem_map, List.mem_cons, List.mem_nil_iff, or_false]
+      · by_cases h : c.dname < customDatumNames.length
+        · left; left; left
+          exact ⟨customDatumNames[c.dname], List.getElem_mem h, by simp [List.getD_eq_getElem?_getD, h]⟩
+        · left; right; left
+          simp [List.getD_eq_getElem?_getD, List.getElem?_eq_none (Nat.le_of_not_lt h)]
+      · by_cases h : c.dname < customDatumNames.length
+        · left; left; right
+          exact ⟨customDatumNames[c.dname], List.getElem_mem h, by simp [List.getD_eq_getElem?_getD, h]⟩
+        · left; right; right
+          simp [List.getD_eq_getElem?_getD, List.getElem?_eq_none (Nat.le_of_not_lt h)]
+    · exact absurd hdd hd
+    · cases st.esri <;> simp
+
+/-- the WKT side: the code `wkt` derives from the DATUM name folds to `WGS84` exactly for the names of WGS 84
+(`"WGS_1984"`, `"D_WGS_1984"` ↦ `"wgs84"`), and for none of the near-miss names (`WGS_1984_Variant`, `WGS_1972`, …) -/
+theorem wkt_flag (c : Crs) (st : Style) :
+    equalFold (datumCodeOf (wktDatumName c st)) (s "WGS84") = decide (c.datum = .wgs84) := by
+  have h1 : (customAllNames ++ ["North_American_Datum_1983", "D_North_American_1983"]).all
+      (fun n => !equalFold (datumCodeOf n) (s "WGS84")) = true := by decide +kernel
+  have h2 : ["WGS_1984", "D_WGS_1984"].all (fun n => equalFold (datumCodeOf n) (s "WGS84")) = true := by decide +kernel
+  rw [List.all_eq_true] at h1 h2
+  rcases wktDatumName_cases c st with ⟨hd, hm⟩ | ⟨hd, hm⟩
+  · rw [h2 _ hm]; simp [hd]
+  · have := h1 _ hm
+    simp only [Bool.not_eq_true'] at this
+    rw [this]; simp [hd]
+
+/-- the PROJ.4 side: `+datum=WGS84` keeps its code, every other flavour (`""`, `"nad83"`) does not fold to it -/
+theorem p4_flag (c : Crs) : equalFold (lowerCode (dCode c [])) (s "WGS84") = decide (c.datum = .wgs84) := by
+  cases hdd : c.datum <;> simp only [dCode, hdd] <;> decide
+
+/-- **C20_transform_agree** — for EVERY well-formed description (a datum given by the name WGS84 included, since fix
+b165df1): both texts parse, the views are the same value, the flag `checkNotWGS` reads (`EqualFold(DatumCode, "WGS84")`)
+is the same on both references (PROJ.4 keeps `WGS84`, WKT yields `wgs84`: both fold; every other datum flavour and every
+near-miss name folds on neither side), and nothing else in the closure reads the code (`transform3_code`), so C08's
+pipeline built from the two parsed references — their REAL datum codes included — is the same function of the position,
+to and from any other reference, for every number type (ℝ included) and every embedding of the rationals. -/
 theorem C20_transform_agree (c : Crs) (st : Style) (hw : wellFormed c = true) (hst : styleOK st = true)
-    (hn : numeralsRead c = true) (hd : c.datum ≠ .wgs84) :
+    (hn : numeralsRead c = true) :
     ∃ rp rw vp vw, parse (α := XR) (toProj4 c st) = .ok rp ∧ parse (α := XR) (toWkt c st) = .ok rw ∧
-      view rp = some vp ∧ view rw = some vw ∧
+      view rp = some vp ∧ view rw = some vw ∧ codeWGS84 rp = codeWGS84 rw ∧
       ∀ (wgs other : C08.SR α) (x y : α),
-        C08.transform wgs (pipeSR ι vp (codeWGS84 rp)) other x y = C08.transform wgs (pipeSR ι vw (codeWGS84 rw)) other x y ∧
-        C08.transform wgs other (pipeSR ι vp (codeWGS84 rp)) x y = C08.transform wgs other (pipeSR ι vw (codeWGS84 rw)) x y := by
+        C08.transform wgs (pipeSR ι vp rp.datumCode) other x y = C08.transform wgs (pipeSR ι vw rw.datumCode) other x y ∧
+        C08.transform wgs other (pipeSR ι vp rp.datumCode) x y = C08.transform wgs other (pipeSR ι vw rw.datumCode) x y := by
   unfold styleOK at hst
   simp only [Bool.and_eq_true, beq_iff_eq, decide_eq_true_eq] at hst
   have hf := wf_spheroid c hw
   obtain ⟨r1, hp1, hv1, hc1⟩ := p4_parse_agree c st hw hn hst.1 hf
   obtain ⟨r2, hp2, hv2, hc2⟩ := wkt_parse_agree c st hw hn hst.1 hst.2 hf
-  have f1 : codeWGS84 r1 = false := by
-    unfold codeWGS84
-    rw [hc1]
-    cases hdd : c.datum
-    · simp [dCode, hdd, lowerCode, toLower]; decide
-    · exact absurd hdd hd
-    · simp only [dCode, hdd, lowerCode]
-      rw [if_pos (by decide), toLower_NAD83]
-      decide
-  have f2 : codeWGS84 r2 = false := by
-    unfold codeWGS84
-    rw [hc2]
-    simp [datumCode_notWGS84 c st]
-  refine ⟨r1, r2, expected c, expected c, hp1, hp2, hv1, hv2, fun _ _ _ _ => ?_⟩
-  rw [f1, f2]
-  exact ⟨rfl, rfl⟩
+  have f1 : codeWGS84 r1 = decide (c.datum = .wgs84) := by
+    unfold codeWGS84; rw [hc1]; exact p4_flag c
+  have f2 : codeWGS84 r2 = decide (c.datum = .wgs84) := by
+    unfold codeWGS84; rw [hc2]; exact wkt_flag c st
+  have hfold : C08.goEqualFold (String.ofList r1.datumCode) "WGS84" = C08.goEqualFold (String.ofList r2.datumCode) "WGS84" := by
+    rw [goEqualFold_ofList, goEqualFold_ofList]
+    exact f1.trans f2.symm
+  refine ⟨r1, r2, expected c, expected c, hp1, hp2, hv1, hv2, by rw [f1, f2], fun wgs other x y => ?_⟩
+  have h1 := transform_code wgs (pipeSR ι (expected c) r1.datumCode) other (String.ofList r1.datumCode) (String.ofList r2.datumCode)
+    other.datumCode other.datumCode hfold rfl
+  have h2 := transform_code wgs other (pipeSR ι (expected c) r1.datumCode) other.datumCode other.datumCode
+    (String.ofList r1.datumCode) (String.ofList r2.datumCode) rfl hfold
+  exact ⟨congrFun (congrFun h1 x) y, congrFun (congrFun h2 x) y⟩
 
 end
 
